@@ -120,7 +120,6 @@ fn run_program<'a>(
     let mut st = WS::Q(results);
     let mut start_i = 0usize;
     let mut ret: Result<(), SErr> = Ok(());
-    let on_err_continue = false;
     for op in ops {
         let name = op["op"].as_str().unwrap_or("?");
         if name == "return_err" {
@@ -189,7 +188,12 @@ fn run_program<'a>(
                     }
                     ("write_col", WS::R(mut rw)) => {
                         let v: AnyVal = mkval(&op["v"]);
-                        let r = rw.write_col(v);
+                        // "ref": the shim hands the value over by reference (`&T: ToMysqlValue`)
+                        let r = if op["ref"].as_bool().unwrap_or(false) {
+                            rw.write_col(&v)
+                        } else {
+                            rw.write_col(v)
+                        };
                         *nextref = WS::R(rw);
                         r
                     }
@@ -203,7 +207,11 @@ fn run_program<'a>(
                             .as_array()
                             .map(|a| a.iter().map(mkval).collect())
                             .unwrap_or_default();
-                        let r = rw.write_row(vs);
+                        let r = if op["ref"].as_bool().unwrap_or(false) {
+                            rw.write_row(&vs)
+                        } else {
+                            rw.write_row(vs)
+                        };
                         *nextref = WS::R(rw);
                         r
                     }
@@ -248,7 +256,8 @@ fn run_program<'a>(
                 st = next;
                 ev["kind"] = json!(format!("{:?}", e.kind()));
                 sh.borrow().emit(ev);
-                if !on_err_continue {
+                // "cont": the shim handles this refusal and carries on with the same writer
+                if !op["cont"].as_bool().unwrap_or(false) {
                     // the realistic shim: `?`
                     ret = Err(SErr::Io(e));
                     break;
